@@ -127,6 +127,15 @@ def run(ctx):
             n_q += int(good)
             rep.ob('R17.2', 'setup_new: static key seed and fake key seed are two different draws', good, show(p.value)[:300], w, sn)
             check_distinct(rep, sn, 'setup_new', p, list(seeds) + [v for v in vals.values() if is_rng_draw(v)], w)
+    # R17.5 the generator is used through the caller's `&mut` only: a draw on a copy of it (R: Clone) is a draw the caller's generator
+    # never sees, so the next operation on the same generator repeats the bytes (seed C16/i).  The term domain cannot tell a copy of
+    # an opaque generator from the generator, hence a who-may-call rule on the monomorphic call graph.
+    rep.extra['fixture_selftest_rng_copies'] = selftest_rng_copies(ctx)
+    for sn in ctx.suite_names:
+        S = ctx.suite(sn)
+        sites = rng_copies(S, 'opaque_ke', 'TapeRng')
+        rep.ob('R17.5', "the caller's generator is never copied (no Clone::clone / clone_from on the generator type in the library)", not sites,
+               'copies at: %s' % [(gp.replace('opaque_ke::', '')[:60], nm, core.rel(sp)) for gp, nm, sp in sites][:3], sites[0][2] if sites else '', sn)
     # every function whose random quantities are judged above was explored completely and returns on some path (a summary without a
     # returning path would make the loops above vacuous)
     for sn in ctx.suite_names:
@@ -140,6 +149,41 @@ def run(ctx):
     from rules import profile
     profile.check(ctx, rep, 'R17.P', ['creg_start', 'clog_start', 'creg_finish', 'slog_start', 'setup_new', 'setup_new_with_key'])
     return rep
+
+
+def rng_copies(S, crate, rng_ty):
+    """call sites in `crate` that copy the caller's generator (Clone::clone / clone_from on the generator type): [(function, callee, span)]"""
+    out = []
+    for b in S.bodies.values():
+        if b.get('crate') != crate:
+            continue
+        for bb in b['blocks']:
+            t = bb.get('term', {})
+            if t.get('k') != 'call':
+                continue
+            c = t['callee']
+            if c.get('trait_dpath') in ('core::clone::Clone', 'std::clone::Clone') and any(rng_ty in (a or '') for a in [c.get('self_ty')] + list(c.get('args') or [])[:1]):
+                out.append((b['generic_path'], c.get('name'), t.get('span', '')))
+    return out
+
+
+_RNGCLONE_SELFTEST = {}
+
+
+def selftest_rng_copies(ctx):
+    if 'done' not in _RNGCLONE_SELFTEST:
+        import facts
+        S = ctx.suite('fx:fx')
+        fns = set(gp.split('::')[-1] for gp, _, _ in rng_copies(S, 'fixtures', 'FxRng'))
+        problems = []
+        if 'root_fx__rngclone_bad' not in fns:
+            problems.append('generator-copy scan did not report root_fx__rngclone_bad')
+        if 'root_fx__rngclone_good' in fns:
+            problems.append('generator-copy scan reported root_fx__rngclone_good')
+        if problems:
+            raise facts.MachineryError('fixture self-test failed: ' + '; '.join(problems))
+        _RNGCLONE_SELFTEST['done'] = sorted(fns)
+    return _RNGCLONE_SELFTEST['done']
 
 
 def check_distinct(rep, sn, which, p, qs, w):
